@@ -1,1 +1,265 @@
-"""Registry entries (see x_registry)."""
+"""Registry entries: metrics, regressors, random generators."""
+import numpy as np
+from hypothesis import strategies as st
+
+import tensorly as tl
+from tensorly import metrics as M
+from tensorly.metrics import regression as MR
+from tensorly import regression as RG
+from tensorly import random as RD
+
+from . import gen
+from .x_registry import register, Call, CPLX, REAL, enc, small_shape, container
+
+seeds = gen.seeds
+
+
+# ============================================================================
+# metrics
+# ============================================================================
+@st.composite
+def s_pair(draw):
+    shape = draw(small_shape(1, 3, 1, 4, 48))
+    return {"A": draw(enc(shape)), "B": draw(enc(shape)), "axis": draw(st.one_of(st.none(), st.integers(0, len(shape) - 1)))}
+
+
+def _b_pair(fn):
+    return lambda e, ctx: Call(fn, dict(y_true=ctx.A(e["A"]), y_pred=ctx.A(e["B"]), axis=e["axis"]))
+
+
+for _n, _f in (("MSE", MR.MSE), ("RMSE", MR.RMSE), ("reflective_correlation_coefficient", MR.reflective_correlation_coefficient),
+               ("covariance", MR.covariance), ("correlation", MR.correlation)):
+    register(f"metrics.{_n}", s_pair(), _b_pair(_f), quick=100)
+
+register("metrics.R2_score", s_pair(), lambda e, ctx: Call(MR.R2_score, dict(X_original=ctx.A(e["A"]), X_predicted=ctx.A(e["B"]))), quick=80, returns=False)
+
+
+@st.composite
+def s_var(draw):
+    shape = draw(small_shape(1, 3, 1, 4, 48))
+    return {"A": draw(enc(shape)), "axis": draw(st.one_of(st.none(), st.integers(0, len(shape) - 1)))}
+
+
+register("metrics.variance", s_var(), lambda e, ctx: Call(MR.variance, dict(y=ctx.A(e["A"]), axis=e["axis"])), quick=80)
+register("metrics.standard_deviation", s_var(), lambda e, ctx: Call(MR.standard_deviation, dict(y=ctx.A(e["A"]), axis=e["axis"])), quick=80)
+
+
+@st.composite
+def s_congruence(draw):
+    n = draw(st.integers(1, 3))
+    r = draw(st.integers(1, 4))
+    rows = [draw(st.integers(1, 5)) for _ in range(n)]
+    single = n == 1 and draw(st.booleans())
+    return {"A": [draw(enc([x, r])) for x in rows], "B": [draw(enc([x, r])) for x in rows], "single": single,
+            "absolute_value": draw(st.booleans()), "argkind": draw(st.sampled_from(["list", "tuple"]))}
+
+
+def b_congruence(e, ctx):
+    A = [ctx.A(a) for a in e["A"]]
+    B = [ctx.A(b) for b in e["B"]]
+    if e["single"]:
+        return Call(M.congruence_coefficient, dict(matrix1=A[0], matrix2=B[0], absolute_value=e["absolute_value"]))
+    return Call(M.congruence_coefficient, dict(matrix1=container(e["argkind"], A), matrix2=container(e["argkind"], B), absolute_value=e["absolute_value"]))
+
+
+register("congruence_coefficient", s_congruence(), b_congruence, quick=120, returns=False)
+
+
+@st.composite
+def s_corridx(draw):
+    n = draw(st.integers(1, 3))
+    r = draw(st.integers(1, 3))
+    rows = [draw(st.integers(1, 4)) for _ in range(n)]
+    return {"A": [draw(enc([x, r])) for x in rows], "B": [draw(enc([x, r])) for x in rows],
+            "method": draw(st.sampled_from(["stacked", "max_score", "min_score", "avg_score"]))}
+
+
+register("correlation_index", s_corridx(),
+         lambda e, ctx: Call(M.correlation_index, dict(factors_1=[ctx.A(a) for a in e["A"]], factors_2=[ctx.A(b) for b in e["B"]], method=e["method"])),
+         quick=120, returns=False, dtypes=CPLX)
+
+
+@st.composite
+def s_lev(draw):
+    return {"A": draw(enc([draw(st.integers(1, 6)), draw(st.integers(1, 4))], "normal"))}
+
+
+# documented: the leverage-score distribution is always double precision -> C15 only
+register("leverage_score_dist", s_lev(), lambda e, ctx: Call(M.leverage_score_dist, dict(matrix=ctx.A(e["A"]))), quick=100, c18=False)
+
+
+@st.composite
+def s_entropy(draw):
+    k = draw(st.integers(1, 4))
+    return {"seed": draw(seeds), "k": k, "form": draw(st.sampled_from(["matrix", "tensor"]))}
+
+
+def b_entropy(e, ctx):
+    rs = np.random.RandomState(e["seed"])
+    k = e["k"]
+    n = k * k if e["form"] == "tensor" else k
+    a = rs.standard_normal((n, n))
+    rho = a @ a.T
+    rho = rho / np.trace(rho)
+    if e["form"] == "tensor":
+        rho = rho.reshape(k, k, k, k)
+    return Call(M.vonneumann_entropy, dict(tensor=ctx.W(rho)))
+
+
+register("vonneumann_entropy", s_entropy(), b_entropy, quick=80, returns=False)
+
+
+# ============================================================================
+# regressors: fit / predict (/ transform)
+# ============================================================================
+@st.composite
+def s_cpreg(draw):
+    n = draw(st.integers(4, 8))
+    xs = draw(small_shape(2, 3, 2, 3, 18))      # a single feature mode with scalar y leaves khatri_rao nothing to multiply
+    ys = draw(st.sampled_from([[], [], [2]]))
+    return {"X": draw(enc([n] + xs)), "y": draw(enc([n] + ys)), "Xnew": draw(enc([draw(st.integers(1, 3))] + xs)),
+            "rank": draw(st.integers(1, 3)), "reg_W": draw(st.sampled_from([1, 0.1, 10.0])), "n_iter_max": draw(st.integers(1, 4)), "rs": draw(seeds)}
+
+
+def _fit_predict(Cls):
+    def run(ctor, X, y, Xnew):
+        est = Cls(**ctor)
+        est.fit(X, y)
+        return est.predict(Xnew), est.predict(X), {k: v for k, v in vars(est).items() if k not in ctor}
+    return run
+
+
+def b_cpreg(e, ctx):
+    ctor = dict(weight_rank=e["rank"], reg_W=e["reg_W"], n_iter_max=e["n_iter_max"], random_state=e["rs"], verbose=0, tol=1e-7)
+    return Call(_fit_predict(RG.CPRegressor), dict(ctor=ctor, X=ctx.A(e["X"]), y=ctx.A(e["y"]), Xnew=ctx.A(e["Xnew"])))
+
+
+register("CPRegressor.fit_predict", s_cpreg(), b_cpreg, quick=80)
+
+
+@st.composite
+def s_tkreg(draw):
+    n = draw(st.integers(4, 8))
+    xs = draw(small_shape(2, 3, 2, 3, 18))
+    return {"X": draw(enc([n] + xs)), "y": draw(enc([n])), "Xnew": draw(enc([draw(st.integers(1, 3))] + xs)),
+            "ranks": [draw(st.integers(1, s)) for s in xs], "rankform": draw(st.sampled_from(["list", "tuple"])),
+            "reg_W": draw(st.sampled_from([1, 0.1])), "n_iter_max": draw(st.integers(1, 4)), "rs": draw(seeds)}
+
+
+def b_tkreg(e, ctx):
+    ctor = dict(weight_ranks=container(e["rankform"], e["ranks"]), reg_W=e["reg_W"], n_iter_max=e["n_iter_max"], random_state=e["rs"], verbose=0)
+    return Call(_fit_predict(RG.TuckerRegressor), dict(ctor=ctor, X=ctx.A(e["X"]), y=ctx.A(e["y"]), Xnew=ctx.A(e["Xnew"])))
+
+
+register("TuckerRegressor.fit_predict", s_tkreg(), b_tkreg, quick=80)
+
+
+@st.composite
+def s_plsr(draw):
+    n = draw(st.integers(4, 8))
+    xs = draw(small_shape(1, 3, 2, 3, 18))
+    ys = draw(st.sampled_from([[], [1], [2], [3]]))
+    m = draw(st.integers(1, 3))
+    return {"X": draw(enc([n] + xs)), "Y": draw(enc([n] + ys)), "Xnew": draw(enc([m] + xs)), "Ynew": draw(enc([m] + ys)),
+            "n_components": draw(st.integers(1, 2)), "n_iter_max": draw(st.integers(1, 5)), "with_y": draw(st.booleans()),
+            "bad": draw(st.integers(0, 7)) == 0}
+
+
+def _plsr_run(ctor, X, Y, Xnew, Ynew):
+    est = RG.CP_PLSR(**ctor)
+    est.fit(X, Y)
+    pred = est.predict(Xnew)
+    tr = est.transform(Xnew, Ynew)
+    ft = RG.CP_PLSR(**ctor).fit_transform(X, Y)
+    return pred, tr, ft, {k: v for k, v in vars(est).items() if k not in ctor and not k.endswith("shape_")}
+
+
+def b_plsr(e, ctx):
+    ctor = dict(n_components=e["n_components"], n_iter_max=e["n_iter_max"], tol=1e-9)
+    Xnew = ctx.A(e["Xnew"])
+    if e["bad"]:
+        Xnew = ctx.W(np.zeros((2,) + tuple(s + 1 for s in Xnew.shape[1:])))      # mismatched trailing shape: predict must raise
+    return Call(_plsr_run, dict(ctor=ctor, X=ctx.A(e["X"]), Y=ctx.A(e["Y"]), Xnew=Xnew, Ynew=ctx.A(e["Ynew"]) if e["with_y"] else None),
+                expect_exc=e["bad"])
+
+
+register("CP_PLSR.fit_predict_transform", s_plsr(), b_plsr, quick=80, flags=("cvg",))
+
+
+# ============================================================================
+# random generators given a RandomState (+ dtype context)
+# ============================================================================
+@st.composite
+def s_random(draw, kind):
+    c = {"rs": draw(seeds), "rskind": draw(st.sampled_from(["RandomState", "RandomState", "int"])), "full": draw(st.booleans()),
+         "shapeform": draw(st.sampled_from(["list", "tuple"]))}
+    if kind == "tensor":
+        c["shape"] = draw(small_shape(1, 3, 1, 4, 48))
+    elif kind == "cp":
+        c["shape"] = draw(small_shape(2, 3, 1, 4, 48))
+        c["rank"] = draw(st.integers(1, 3))
+        c["orthogonal"] = draw(st.booleans()) and c["rank"] <= min(c["shape"])
+        c["normalise_factors"] = draw(st.booleans())
+    elif kind == "tucker":
+        c["shape"] = draw(small_shape(2, 3, 1, 4, 48))
+        c["rank"] = [draw(st.integers(1, 3)) for _ in c["shape"]]
+        c["orthogonal"] = draw(st.booleans()) and all(r <= s for r, s in zip(c["rank"], c["shape"]))
+        c["non_negative"] = draw(st.booleans())
+    elif kind == "tt":
+        c["shape"] = draw(small_shape(2, 4, 1, 3, 54))
+        c["rank"] = [1] + [draw(st.integers(1, 3)) for _ in range(len(c["shape"]) - 1)] + [1]
+    elif kind == "tr":
+        c["shape"] = draw(small_shape(2, 4, 1, 3, 54))
+        r = [draw(st.integers(1, 3)) for _ in c["shape"]]
+        c["rank"] = r + [r[0]]
+    elif kind == "tt_matrix":
+        n = draw(st.integers(1, 2))
+        c["shape"] = [draw(st.integers(1, 3)) for _ in range(2 * n)]
+        c["rank"] = [1] + [draw(st.integers(1, 2)) for _ in range(n - 1)] + [1]
+    elif kind == "parafac2":
+        K = draw(st.integers(1, 3))
+        rank = draw(st.integers(1, 3))
+        c["shapes"] = [[draw(st.integers(rank, 4)), K] for _ in range(draw(st.integers(1, 3)))]
+        c["rank"] = rank
+        c["normalise_factors"] = draw(st.booleans())
+    return c
+
+
+def _b_random(kind):
+    fn = getattr(RD, "random_" + kind)
+
+    def b(e, ctx):
+        rs = np.random.RandomState(e["rs"]) if e["rskind"] == "RandomState" else e["rs"]
+        kw = dict(random_state=rs, dtype=ctx.dtype)
+        if kind == "parafac2":
+            kw["shapes"] = container(e["shapeform"], [container(e["shapeform"], s) for s in e["shapes"]])
+        else:
+            kw["shape"] = container(e["shapeform"], e["shape"])
+        if kind != "tensor":
+            kw["full"] = e["full"]
+            kw["rank"] = list(e["rank"]) if isinstance(e["rank"], list) else e["rank"]
+        for k in ("orthogonal", "normalise_factors", "non_negative"):
+            if k in e:
+                kw[k] = e[k]
+        return Call(fn, kw)
+    return b
+
+
+for _k in ("tensor", "cp", "tucker", "tt", "tr", "tt_matrix", "parafac2"):
+    register(f"random_{_k}", s_random(_k), _b_random(_k), quick=100)
+
+
+# ============================================================================
+# backend index_update: the target is documented as updated in place (exempt), the values are not
+# ============================================================================
+@st.composite
+def s_index_update(draw):
+    shape = [draw(st.integers(1, 4)), draw(st.integers(1, 4))]
+    row = draw(st.integers(0, shape[0] - 1))
+    return {"T": draw(enc(shape)), "row": row, "V": draw(enc([shape[1]]))}
+
+
+register("index_update", s_index_update(),
+         lambda e, ctx: Call(lambda tensor, indices, values: tl.index_update(tensor, indices, values),
+                             dict(tensor=ctx.A(e["T"]), indices=tl.index[e["row"], :], values=ctx.A(e["V"])), exempt=("tensor", "indices")),
+         quick=100, dtypes=CPLX)
